@@ -35,6 +35,9 @@ type Prop struct {
 	// phases that span processes (cross-process determinism, strace, -race
 	// binaries).  It records into d exactly like a worker does into W.
 	Driver func(d *D)
+	// Aux (optional) is an auxiliary child-process mode: `vcheck <id> --aux <args…>`.
+	// Drivers start it through D.RunAux (other GOMAXPROCS/GOGC, other binaries).
+	Aux func(args []string) int
 	// Binary selects the worker binary: "" (default), "race", "elpscheck".
 	Binary string
 	// Exhaustive reports whether the tier enumerates a finite space completely.
@@ -198,6 +201,43 @@ func (d *D) Violation(key, summary, detail string) {
 	d.violate(Violation{Key: key, Summary: summary, Detail: detail, Idx: -1, Phase: "driver"})
 }
 
+// RunAux starts `vcheck[-binary] <id> --aux args…` with extra environment and
+// returns its stdout.  A non-zero exit or timeout is returned as an error.
+func (d *D) RunAux(binary string, env []string, timeout time.Duration, args ...string) ([]byte, error) {
+	bin := filepath.Join(d.Build, "vcheck")
+	if binary != "" {
+		bin = filepath.Join(d.Build, "vcheck-"+binary)
+	}
+	cmd := exec.Command(bin, append([]string{d.Prop.ID, "--aux"}, args...)...)
+	cmd.Env = append(append(os.Environ(), fmt.Sprintf("VERIF_SEED=%d", d.Seed), "VERIF_TIER="+d.Tier), env...)
+	var out, errb strings.Builder
+	cmd.Stdout = &out
+	cmd.Stderr = &errb
+	if err := cmd.Start(); err != nil {
+		return nil, err
+	}
+	done := make(chan error, 1)
+	go func() { done <- cmd.Wait() }()
+	select {
+	case err := <-done:
+		if err != nil {
+			return []byte(out.String()), fmt.Errorf("%v: %s", err, tail(errb.String(), 3000))
+		}
+	case <-time.After(timeout):
+		cmd.Process.Kill()
+		<-done
+		return []byte(out.String()), fmt.Errorf("aux timed out after %v", timeout)
+	}
+	return []byte(out.String()), nil
+}
+
+func tail(s string, n int) string {
+	if len(s) > n {
+		return s[len(s)-n:]
+	}
+	return s
+}
+
 func (d *D) RNG(idx int, sub string) *RNG { return NewRNG(d.Seed, d.Prop.ID+"/"+sub, idx) }
 
 // ---------------------------------------------------------------------------
@@ -234,6 +274,13 @@ func Main() {
 		case "--replay":
 			i++
 			replay = args[i]
+		case "--aux":
+			p := Lookup(id)
+			if p == nil || p.Aux == nil {
+				fmt.Fprintln(os.Stderr, "no aux mode for", id)
+				os.Exit(3)
+			}
+			os.Exit(p.Aux(args[i+1:]))
 		case "--worker":
 			i++
 			worker = args[i]
@@ -426,6 +473,9 @@ func runDriver(p *Prop, tier string, seed int64) int {
 			cmd.Stdout = errf
 			cmd.Stderr = errf
 			cmd.Env = append(os.Environ(), fmt.Sprintf("VERIF_SEED=%d", seed), "GOTRACEBACK=all")
+			if p.Binary == "race" {
+				cmd.Env = append(cmd.Env, "GORACE=halt_on_error=0 log_path="+filepath.Join(tmp, fmt.Sprintf("race-w%d", i)))
+			}
 			done := make(chan error, 1)
 			if err := cmd.Start(); err != nil {
 				results[i] = wres{died: true, tail: err.Error()}
@@ -478,6 +528,9 @@ func runDriver(p *Prop, tier string, seed int64) int {
 		default:
 			agg.merge(r.rec)
 		}
+	}
+	if p.Binary == "race" {
+		collectRaceReports(agg, tmp)
 	}
 	if p.Driver != nil {
 		d := &D{Rec: agg, Prop: p, Tier: tier, Seed: seed, Home: home, Build: build, Repo: repo}
@@ -665,4 +718,56 @@ func ReadLines(path string) []string {
 		out = append(out, sc.Text())
 	}
 	return out
+}
+
+// collectRaceReports turns Go race-detector logs (GORACE log_path files) into
+// violations, de-duplicated by the pair of outermost non-runtime frames.
+func collectRaceReports(agg *Rec, dir string) {
+	files, _ := filepath.Glob(filepath.Join(dir, "race-*"))
+	total := 0
+	seen := map[string]bool{}
+	for _, f := range files {
+		b, err := os.ReadFile(f)
+		if err != nil {
+			continue
+		}
+		for _, blk := range strings.Split(string(b), "==================") {
+			if !strings.Contains(blk, "WARNING: DATA RACE") {
+				continue
+			}
+			total++
+			key := RaceKey(blk)
+			if seen[key] {
+				continue
+			}
+			seen[key] = true
+			agg.violate(Violation{Key: "data-race:" + key, Summary: "Go race detector report: " + key, Detail: tail(blk, 6000), Idx: -1, Phase: "driver"})
+		}
+	}
+	agg.Counters["race_detector_reports"] += int64(total)
+}
+
+// RaceKey summarises a race report by the first elps/harness frame of each of
+// its two accesses (line numbers stripped).
+func RaceKey(blk string) string {
+	var fr []string
+	lines := strings.Split(blk, "\n")
+	take := false
+	for _, l := range lines {
+		t := strings.TrimSpace(l)
+		if strings.HasPrefix(t, "Write at") || strings.HasPrefix(t, "Read at") || strings.HasPrefix(t, "Previous write at") || strings.HasPrefix(t, "Previous read at") {
+			take = true
+			continue
+		}
+		if take && (strings.Contains(t, "elps/") || strings.Contains(t, "verifharness/")) && strings.HasSuffix(strings.SplitN(t, "(", 2)[0], "") && !strings.HasPrefix(t, "/") {
+			fn := strings.SplitN(t, "(", 2)[0]
+			fr = append(fr, fn)
+			take = false
+		}
+	}
+	if len(fr) == 0 {
+		return "unknown-frames"
+	}
+	sort.Strings(fr)
+	return strings.Join(fr, " <-> ")
 }
